@@ -4,6 +4,8 @@
 //
 // stdin, one scenario per line:  <max|-> <+prefix hex|-> <telemetry 0|1> <aggressive 0|1> <cycles> <interval ms>
 // stdout per scenario:           <hex of the byte stream received> (`-` if empty), or `ERR:<what>`
+// A line `B a:<addr hex> m:<n> ...` instead applies with_remote_address / with_maximum_payload_length in order and
+// then calls the real build(): prints `ok`, `err` (build() refused) or `early` (a setter refused).
 // Metrics emitted every cycle through the exporter's recorder: counter `reqs` (+3), counter with a long name
 // (rejected for small maxima), gauge `temp{room=a}`, histogram `lat` with 40 values.
 use metrics::{Key, Label, Level, Metadata, Recorder};
@@ -16,7 +18,30 @@ fn unhex(s: &str) -> Vec<u8> {
     (0..s.len() / 2).map(|i| u8::from_str_radix(&s[2 * i..2 * i + 2], 16).unwrap()).collect()
 }
 
+fn build_only(line: &str) -> String {
+    let mut b = DogStatsDBuilder::default().with_flush_interval(Duration::from_secs(3600)).with_telemetry(false);
+    for tok in line.split_whitespace().skip(1) {
+        let (k, v) = tok.split_once(':').unwrap();
+        let r = if k == "a" {
+            b.with_remote_address(String::from_utf8(unhex(v)).unwrap())
+        } else {
+            b.with_maximum_payload_length(v.parse().unwrap())
+        };
+        b = match r {
+            Ok(b) => b,
+            Err(_) => return "early".to_string(),
+        };
+    }
+    match b.build() {
+        Ok(_) => "ok".to_string(),
+        Err(_) => "err".to_string(),
+    }
+}
+
 fn scenario(line: &str, n: usize) -> String {
+    if line.starts_with('B') {
+        return build_only(line);
+    }
     let f: Vec<&str> = line.split_whitespace().collect();
     let dir = std::env::temp_dir().join(format!("c09e2e-{}-{}", std::process::id(), n));
     let _ = std::fs::remove_dir_all(&dir);
@@ -64,11 +89,17 @@ fn scenario(line: &str, n: usize) -> String {
         stream.set_nonblocking(false).unwrap();
         stream.set_read_timeout(Some(Duration::from_millis(20))).unwrap();
         let mut chunk = [0u8; 65536];
-        while Instant::now() < deadline {
+        // read until the deadline, then until the socket has been quiet for one read timeout (frames are written
+        // with one write_all each, so the stream is not cut inside a frame)
+        loop {
             match stream.read(&mut chunk) {
                 Ok(0) => break,
                 Ok(k) => buf.extend_from_slice(&chunk[..k]),
-                Err(_) => {}
+                Err(_) => {
+                    if Instant::now() >= deadline {
+                        break;
+                    }
+                }
             }
         }
         buf
